@@ -2,6 +2,7 @@
 """Regenerates the `fixed` list of known_findings.json from /repo's "fix:" commits."""
 import json, subprocess
 PROP = {
+"Literal / Enum deserialization conflates":"C01","uniqueItems treats true and 1":"C01",
 "sort_by_order drops an element":"C16",
 "GraphQL schema generation hashes":"C19","GraphQL flattened field context leaks":"C19",
 "serialization of a discriminated union of TypedDict":"C04","dependent_required ignores fields skipped":"C03","FieldsConstructor counts all":"C08","coerce() turns unhashable":"C03,C14","Optional[Literal/Enum] schema":"C06",
